@@ -20,7 +20,7 @@ func H_C07_Step() {
 	f.vAddSelf(vU32(), vBytes(1))
 	f.vAddConcreteAlive(vPeerB, 3)
 	if vPick(2) == 1 {
-		f.vAddNode(vPeerA, vPick(2))
+		f.vAddNode(vPeerA, vMetaLen())
 	}
 	c := vArbClaim(vPeerA)
 	pre := f.vSnapshot(vPeerA)
